@@ -365,13 +365,21 @@ class RRTRun:
         phases = [(cfg["iterations"], self.goal)]
         extra = [cfg[k_] for k_ in ("second", "third") if cfg.get(k_)]
         for ex in extra:
-            phases.append((ex["iterations"], tm(list(ex["goal"]))))
+            phases.append((ex["iterations"], ex))        # the goal of a later call may refer to the tree built so far
         self.total_iters = 0
         self._log_mark = 0
         self._tree = [self.origin6]
         self._arr = np.array([self.origin6])
         self._accepted = []
         for ph, (n_it, goal) in enumerate(phases):
+            if isinstance(goal, dict):
+                if goal.get("goal_from_node") is not None and len(self._tree) > 1:
+                    # re-planning to a way-point read back from a log: a tree node's pose rounded to a few decimals
+                    src_ = self._tree[1 + goal["goal_from_node"]["index"] % (len(self._tree) - 1)]
+                    goal = tm([round(x, goal["goal_from_node"]["decimals"]) for x in src_])
+                    self.probes["goal_is_rounded_tree_node"] += 1
+                else:
+                    goal = tm(list(goal["goal"]))
             self.goal = goal
             pl.iterations = n_it
             if ph:
@@ -822,6 +830,12 @@ def gen_trace(seed):
         cfg["second"] = {"iterations": pick_weighted(r, [(1, 1.0), (2, 2.0), (3, 2.0), (r.randint(4, 12), 2.0), (r.randint(13, 60), 1.0)]),
                          "goal": [round(r.uniform(-B, B), 3) for _ in range(3)] + [round(r.uniform(-rot, rot), 3) if rot else 0.0 for _ in range(3)]}
     if cfg.get("second") and r.random() < 0.3:
+        cfg["second"]["goal_from_node"] = {"index": r.randrange(1000), "decimals": r.choice([5, 5, 6, 12])}
+    if r.random() < 0.03:
+        # a tiny first move: the goal is the start pose turned in place by 5e-5 rad
+        cfg["goal"] = list(cfg["origin"])
+        cfg["goal"][5] = cfg["origin"][5] + 5e-5
+    if cfg.get("second") and r.random() < 0.3:
         cfg["third"] = {"iterations": r.randint(1, 6),
                         "goal": [round(r.uniform(-B, B), 3) for _ in range(3)] + [round(r.uniform(-rot, rot), 3) if rot else 0.0 for _ in range(3)]}
     if cfg.get("second") and mode == "builtin" and cfg.get("boxes") and r.random() < 0.5:
@@ -860,7 +874,7 @@ ASSUMPTIONS = [
 EXPECTED_PROBES = ["rejected_for_min", "rejected_for_max", "rejected_for_collision", "rejected_exact_duplicate",
                    "tie_in_first_nearest", "tie_at_kth_neighbour", "parent_not_nearest", "cheaper_candidate_collides",
                    "k_exceeds_tree_size", "terrain_generated", "iterations_1", "iterations_2", "path_goal_nearest_root",
-                   "path_depth_ge4", "path_depth_ge14", "path_depth_ge30", "second_call_on_same_planner", "obstruction_replaced_between_calls", "custom_callbacks", "builtin_pipeline", "arc_distance_mode"]
+                   "path_depth_ge4", "path_depth_ge14", "path_depth_ge30", "second_call_on_same_planner", "obstruction_replaced_between_calls", "goal_is_rounded_tree_node", "custom_callbacks", "builtin_pipeline", "arc_distance_mode"]
 
 
 def warmup():
